@@ -12,6 +12,8 @@ static void pvector_tracked(Src &s, Case &c)
 {
     c02::vec_target<igris_portable::vector<trk::Tracked>, trk::Tracked, c02::ApiPortable>(s, c, "std_portable igris::vector<Tracked>");
 }
+static void pvector_cmp(Src &s, Case &c) { c02::cmp_target<igris_portable::vector<double>, igris_portable::vector<c02::KeyTag>>(s, c, "std_portable igris::vector"); }
+VP_TARGET("portable_vector_cmp", pvector_cmp, "the comparison cases of vector_cmp on the std_portable twin");
 static void pvector_tracked_big(Src &s, Case &c)
 {
     c02::BigMode bm;
